@@ -79,7 +79,20 @@ def _pair_untimed(rep, label, where, a, b, sa, sb, fallback):
             rep.fail('R-DUAL', where, label, slot, 'not %s p and %s not p differ: %s is %s, the dual of %s is %s'
                      % (a.lower(), b.lower(), b, opref.describe(sb), a, opref.describe(dual_nf(sa))))
         return True
-    return fallback()
+    # a side is not summarised: the syntactic mirror can *confirm* the pair (it is a sufficient condition); when it does not hold nothing follows --
+    # a one-sided rewrite into an equivalent idiom looks the same as a one-sided defect -- so that is "undecided" (exit 2), never a violation
+    col = _Collect(rep)
+    real = rep
+
+    res = fallback(col)
+    for (rule, rel, sym, s2) in col.oks:
+        real.ok(rule, rel, sym, s2, 'syntactic mirror holds (no summary for one side)')
+    for e in col.errors:
+        real.error(e)
+    if col.fails:
+        (rule, rel, sym, s2, msg, line) = col.fails[0]
+        real.error('%s: %s and %s: one handler is not in a summarised idiom and the two are not syntactic mirror images either (%s) -- undecided' % (slot, a, b, msg[:120]))
+    return res
 
 
 def check(ix, rep):
@@ -103,8 +116,8 @@ def check(ix, rep):
         rep.analysed(fa)
         rep.analysed(fb)
 
-        def fb_(fa=fa, fb=fb, a=a, b=b):
-            mirror.compare_functions(rep, 'R-MIRROR', fa, fb, 'discrete-offline:%s~%s' % (a, b))
+        def fb_(r_, fa=fa, fb=fb, a=a, b=b):
+            mirror.compare_functions(r_, 'R-MIRROR', fa, fb, 'discrete-offline:%s~%s' % (a, b))
             return True
         _pair_untimed(rep, 'discrete-offline', off.visitor.module.rel, a, b, offsum.get(a), offsum.get(b), fb_)
     col = _Collect(rep)
@@ -125,11 +138,11 @@ def check(ix, rep):
         rep.analysed(ca.methods['update'])
         rep.analysed(cb.methods['update'])
 
-        def fb_(ca=ca, cb=cb, a=a, b=b):
+        def fb_(r_, ca=ca, cb=cb, a=a, b=b):
             for meth in ('__init__', 'reset', 'update'):
                 fa, fb = ca.methods.get(meth), cb.methods.get(meth)
                 if fa is not None and fb is not None:
-                    mirror.compare_functions(rep, 'R-MIRROR', fa, fb, 'discrete-online:%s~%s:%s' % (a, b, meth), sort_init=(meth == '__init__'))
+                    mirror.compare_functions(r_, 'R-MIRROR', fa, fb, 'discrete-online:%s~%s:%s' % (a, b, meth), sort_init=(meth == '__init__'))
             return True
         _pair_untimed(rep, 'discrete-online', on.visitor.module.rel, a, b, onsum.get(a), onsum.get(b), fb_)
     col = _Collect(rep)
@@ -148,8 +161,8 @@ def check(ix, rep):
         sa, _p, _t = densesum.summarize_offline_handler(ix, fa)
         sb, _p, _t = densesum.summarize_offline_handler(ix, fb)
 
-        def fb_(fa=fa, fb=fb, a=a, b=b):
-            mirror.compare_functions(rep, 'R-MIRROR', fa, fb, 'dense-offline:%s~%s' % (a, b))
+        def fb_(r_, fa=fa, fb=fb, a=a, b=b):
+            mirror.compare_functions(r_, 'R-MIRROR', fa, fb, 'dense-offline:%s~%s' % (a, b))
             return True
         _pair_untimed(rep, 'dense-offline', doff.visitor.module.rel, a, b, sa, sb, fb_)
     m = ix.module('rtamt.semantics.stl.dense_time.offline.ast_visitor')
@@ -182,11 +195,11 @@ def check(ix, rep):
         sa, _p, _t = densesum.summarize_online_operation(ix, ca)
         sb, _p, _t = densesum.summarize_online_operation(ix, cb)
 
-        def fb_(ca=ca, cb=cb, a=a, b=b):
+        def fb_(r_, ca=ca, cb=cb, a=a, b=b):
             for meth in ('__init__', 'reset', 'update'):
                 fa, fb = ca.methods.get(meth), cb.methods.get(meth)
                 if fa is not None and fb is not None:
-                    mirror.compare_functions(rep, 'R-MIRROR', fa, fb, 'dense-online:%s~%s:%s' % (a, b, meth), sort_init=(meth == '__init__'))
+                    mirror.compare_functions(r_, 'R-MIRROR', fa, fb, 'dense-online:%s~%s:%s' % (a, b, meth), sort_init=(meth == '__init__'))
             return True
         _pair_untimed(rep, 'dense-online', don.visitor.module.rel, a, b, sa, sb, fb_)
     ca, cb = dops.get('TimedOnce'), dops.get('TimedHistorically')
@@ -329,14 +342,26 @@ def laws(rep, label, sums, where, dense=False):
         else:
             rep.fail('R-LAW', where, label, 'implies=(not p) or q', 'implies is %s but (not p) or q is %s' % (O.show(imp), O.show(composed)))
     elif imp is not None:
-        rep.undecided('R-LAW', where, label, 'implies=(not p) or q', 'operators not summarised')
+        rep.error('%s (%s): implies / or / not are not all in a summarised idiom -- the law implies = (not p) or q is undecided' % (where, label))
     # since / until expansion (discrete time)
     if not dense:
         for name, d, shiftname in (('Since', 'fwd', 's_prev'), ('Until', 'bwd', 's_next')):
             s = sums.get(name)
             if s is None:
                 continue
+            if s[0] == 'unknown':
+                rep.error('%s (%s): the %s handler is not in a summarised idiom (%s) -- expansion law undecided' % (where, label, name.lower(), s[1]))
+                continue
             want = ('scan', d, O.NINF, mk('max', [X1, mk('min', [X0, ST])]), 'out')
+            # the law is stated inside one monitor: compose that monitor's own `or` and `and` (an `and` that computes something else breaks
+            # the law although the since recursion itself is the textbook one)
+            cj = sums.get('Conjunction')
+            if cj and orr and cj[0] == orr[0] == 'pointwise':
+                inner = O.subst(cj[1], lambda e: ST if e == X1 else None)
+                tmp = ('x', 9, 0, None)
+                outer = O.subst(O.subst(orr[1], lambda e: tmp if e == X1 else None), lambda e: X1 if e == X0 else None)
+                outer = O.subst(outer, lambda e: inner if e == tmp else None)
+                want = ('scan', d, O.NINF, outer, 'out')
             if s == want:
                 rep.ok('R-LAW', where, label, '%s expansion' % name.lower(), 'out = q or (p and %s(self)), strong boundary' % shiftname, None)
             else:
